@@ -67,3 +67,23 @@ Check (C11_open_answered_refuted :
 Check (C11_open_answered_class3_refuted :
   exists (c : cfg) (ops : list op) (s : st) (owed : peer -> bool),
     ledger c init (fun _ => false) ops = Some (s, owed) /\ owed 0 = true /\ in_progress (ps s 0) = false).
+Check (C11_timers_fire_once :
+  forall (c : cfg) (s : st) (o : op) (s' : st) (ev : list uev) (cl : list call),
+    step c s o = Some (s', ev, cl) -> timers_spec s o s').
+Check (C11_waiting_attempt_has_timer :
+  forall (c : cfg) (s : st) (p : peer),
+    reachable c s -> waiting (ps s p) = true -> existsb (N.eqb p) (timers s) = true).
+Check (C11_timer_only_cancels_waiting :
+  forall (c : cfg) (s : st) (p : peer) (s' : st) (ev : list uev) (cl : list call),
+    waiting (ps s p) = false -> step c s (Timer p) = Some (s', ev, cl) ->
+    ev = [] /\ cl = [] /\ ps s' = ps s /\ tasks s' = tasks s /\ hopen s' = hopen s).
+Check (C11_no_stale_timer_kill :
+  forall (c : cfg) (s : st) (p : peer) (k : N) (s' : st) (ev : list uev) (cl : list call),
+    ps s p = Some (Open k) -> step c s (Timer p) = Some (s', ev, cl) ->
+    ev = [] /\ cl = [] /\ ps s' = ps s /\ tasks s' = tasks s /\ hopen s' = hopen s).
+Check (C11_stale_timer_cancels_newer_attempt_refuted :
+  exists s1 s2 s3 ev cl,
+    exec cfg_wt init w_stale_pre = Some s1 /\ ps s1 0 = Some (Closed None) /\ timers s1 = [0] /\
+    exec cfg_wt s1 w_stale_post = Some s2 /\ waiting (ps s2 0) = true /\ timers s2 = [0; 0] /\
+    step cfg_wt s2 (Timer 0) = Some (s3, ev, cl) /\ ev = [UFail 0 E_REJECTED] /\ cl = [CForce 0] /\
+    timers s3 = [0]).
